@@ -379,6 +379,10 @@ def wrap_kind(kind: str, t) -> V:
         return VStr(t)
     if kind == "bool":
         return VBool(t)
+    if kind == "opaque":
+        return VOpaque(t)
+    if kind == "ref":
+        return VRef(t)
     if kind.startswith("seq:"):
         return VSeq(t, kind[4:])
     if ty.has_record(kind):
